@@ -659,6 +659,13 @@ class PVLEncoder(object):
         """Returns a ``str`` formatted as a PVL Units Value based
         on the *value* object according to the rules of this encoder.
         """
+        for d in self.grammar.units_delimiters:
+            if d in value:
+                raise ValueError(
+                    f'The units "{value}" contain the Units Expression '
+                    f'delimiter "{d}" and cannot be written.'
+                )
+
         return (
             self.grammar.units_delimiters[0]
             + value
